@@ -251,6 +251,7 @@ type Run struct {
 	stepN    int
 	pureDepth int
 	curCon   *Contract
+	closable map[string]bool
 }
 
 func (x *Run) unsupported(what string, pos token.Pos) {
